@@ -25,14 +25,27 @@ pub fn c10_core(code: &'static [u8], h: Hist) {
     hashcons_on();
     let t = parse(code);
     let ty = build(code);
+    assert!(ty.bit_width() == t.w[t.root], "Final::bit_width differs from the definition");
+    let np = n_paths(&t, t.root);
+    let mut sel = 0;
+    while sel < np {
+        c10_one(&t, &ty, sel, h);
+        sel += 1;
+    }
+    kani::cover!(true, "end reached");
+    std::mem::forget(ty);
+}
+
+fn c10_one(t: &TyTab, ty: &Arc<Final>, sel: usize, h: Hist) {
+    let t = *t;
     let root = t.root;
     let w = t.w[root];
-    assert!(ty.bit_width() == w, "Final::bit_width differs from the definition");
-    let bits = any_bits(w);
-    let v = produce(&t, &ty, &bits, h);
+    let mut bits = any_bits(w);
+    fix_tags(&t, root, &mut bits, 0, sel);
+    let v = produce(&t, ty, &bits, h);
 
     // --- encodings
-    assert!(v.is_of_type(&ty), "value lost its type");
+    assert!(v.is_of_type(ty), "value lost its type");
     assert!(v.padded_len() == w);
     let p = padded_of(&v, w);
     assert!(same_content(&t, &p, &bits), "padded encoding denotes a different element");
@@ -61,9 +74,9 @@ pub fn c10_core(code: &'static [u8], h: Hist) {
         let (bytes, nb) = v.iter_compact().collect_bits();
         assert!(nb == n);
         let mut it = BitIter::from(&bytes[..]);
-        let v2 = Value::from_compact_bits(&mut it, &ty).unwrap();
+        let v2 = Value::from_compact_bits(&mut it, ty).unwrap();
         assert!(it.n_total_read() == n, "compact decode consumed a different number of bits than produced");
-        assert!(v2.is_of_type(&ty));
+        assert!(v2.is_of_type(ty));
         let p2 = padded_of(&v2, w);
         assert!(same_content(&t, &p2, &bits), "compact round-trip changed the value");
         std::mem::forget(v2);
@@ -73,7 +86,7 @@ pub fn c10_core(code: &'static [u8], h: Hist) {
         let (bytes, nb) = v.iter_padded().collect_bits();
         assert!(nb == w);
         let mut it = BitIter::from(&bytes[..]);
-        let v3 = Value::from_padded_bits(&mut it, &ty).unwrap();
+        let v3 = Value::from_padded_bits(&mut it, ty).unwrap();
         assert!(it.n_total_read() == w, "padded decode consumed a different number of bits than produced");
         let p3 = padded_of(&v3, w);
         assert!(same_content(&t, &p3, &bits), "padded round-trip changed the value");
@@ -98,7 +111,7 @@ pub fn c10_core(code: &'static [u8], h: Hist) {
                 let px = padded_of(&x, t.w[l]);
                 assert!(same_content(&tl, &px, &want), "as_left part differs from what the value holds");
                 let back = Value::left(x, Arc::clone(rt));
-                assert!(back.is_of_type(&ty), "Value::left built a different type");
+                assert!(back.is_of_type(ty), "Value::left built a different type");
                 let pb = padded_of(&back, w);
                 assert!(same_content(&t, &pb, &bits), "left(as_left(v)) differs from v");
                 kani::cover!(true, "left branch");
@@ -113,7 +126,7 @@ pub fn c10_core(code: &'static [u8], h: Hist) {
                 let px = padded_of(&x, t.w[r]);
                 assert!(same_content(&tr, &px, &want), "as_right part differs from what the value holds");
                 let back = Value::right(Arc::clone(lt), x);
-                assert!(back.is_of_type(&ty), "Value::right built a different type");
+                assert!(back.is_of_type(ty), "Value::right built a different type");
                 let pb = padded_of(&back, w);
                 assert!(same_content(&t, &pb, &bits), "right(as_right(v)) differs from v");
                 kani::cover!(true, "right branch");
@@ -136,7 +149,7 @@ pub fn c10_core(code: &'static [u8], h: Hist) {
             assert!(same_content(&tl, &pa, &shift(&bits, 0, t.w[l])), "left component differs");
             assert!(same_content(&tr, &pb, &shift(&bits, t.w[l], t.w[r])), "right component differs");
             let back = Value::product(a, b);
-            assert!(back.is_of_type(&ty), "Value::product built a different type");
+            assert!(back.is_of_type(ty), "Value::product built a different type");
             let pk = padded_of(&back, w);
             assert!(same_content(&t, &pk, &bits), "product(as_product(v)) differs from v");
             kani::cover!(true, "product");
@@ -148,9 +161,7 @@ pub fn c10_core(code: &'static [u8], h: Hist) {
         }
         _ => {}
     }
-    kani::cover!(true, "end reached");
     std::mem::forget(v);
-    std::mem::forget(ty);
 }
 
 macro_rules! c10 {
@@ -165,3 +176,133 @@ macro_rules! c10 {
 }
 
 c10!(k10_probe_1pb_dec, b"ub+", Hist::DecPadded);
+
+// ---- micro probes (not registered)
+#[kani::proof]
+#[kani::unwind(8)]
+#[kani::stub(simplicity::types::precomputed::nth_power_of_2, crate::vals::stub_nth_power_of_2)]
+fn kprobe_compact_len() {
+    hashcons_on();
+    let t = parse(b"ub+");
+    let ty = build(b"ub+");
+    let mut bits = any_bits(2);
+    fix_tags(&t, t.root, &mut bits, 0, 1);
+    let v = produce(&t, &ty, &bits, Hist::DecPadded);
+    let n = v.compact_len();
+    assert!(n == 2);
+    std::mem::forget(v);
+    std::mem::forget(ty);
+}
+
+#[kani::proof]
+#[kani::unwind(8)]
+#[kani::stub(simplicity::types::precomputed::nth_power_of_2, crate::vals::stub_nth_power_of_2)]
+fn kprobe_produce_only() {
+    hashcons_on();
+    let t = parse(b"ub+");
+    let ty = build(b"ub+");
+    let mut bits = any_bits(2);
+    fix_tags(&t, t.root, &mut bits, 0, 1);
+    let v = produce(&t, &ty, &bits, Hist::DecPadded);
+    assert!(v.padded_len() == 2);
+    std::mem::forget(v);
+    std::mem::forget(ty);
+}
+
+#[kani::proof]
+#[kani::unwind(8)]
+#[kani::stub(simplicity::types::precomputed::nth_power_of_2, crate::vals::stub_nth_power_of_2)]
+#[kani::stub(std::vec::Vec::push, crate::hcons::stub_vec_push)]
+fn kprobe_compact_len_pushstub() {
+    hashcons_on();
+    let t = parse(b"ub+");
+    let ty = build(b"ub+");
+    let mut bits = any_bits(2);
+    fix_tags(&t, t.root, &mut bits, 0, 1);
+    let v = produce(&t, &ty, &bits, Hist::DecPadded);
+    let n = v.compact_len();
+    assert!(n == 2);
+    std::mem::forget(v);
+    std::mem::forget(ty);
+}
+
+#[kani::proof]
+#[kani::unwind(8)]
+#[kani::stub(simplicity::types::precomputed::nth_power_of_2, crate::vals::stub_nth_power_of_2)]
+fn kprobe_build_only() {
+    hashcons_on();
+    let ty = build(b"ub+");
+    assert!(ty.bit_width() == 2);
+    std::mem::forget(ty);
+}
+
+#[kani::proof]
+#[kani::unwind(8)]
+#[kani::stub(simplicity::types::precomputed::nth_power_of_2, crate::vals::stub_nth_power_of_2)]
+fn kprobe_build_only_realsha() {
+    let ty = build(b"ub+");
+    assert!(ty.bit_width() == 2);
+    std::mem::forget(ty);
+}
+
+#[kani::proof]
+#[kani::unwind(8)]
+#[kani::stub(simplicity::types::precomputed::nth_power_of_2, crate::vals::stub_nth_power_of_2)]
+#[kani::stub(simplicity::Tmr::sum, crate::hcons::stub_tmr_sum)]
+#[kani::stub(simplicity::Tmr::product, crate::hcons::stub_tmr_product)]
+fn kprobe_build_only_tmrstub() {
+    let ty = build(b"ub+");
+    assert!(ty.bit_width() == 2);
+    std::mem::forget(ty);
+}
+
+#[kani::proof]
+#[kani::unwind(8)]
+#[kani::stub(simplicity::types::precomputed::nth_power_of_2, crate::vals::stub_nth_power_of_2)]
+#[kani::stub(simplicity::Tmr::sum, crate::hcons::stub_tmr_sum)]
+#[kani::stub(simplicity::Tmr::product, crate::hcons::stub_tmr_product)]
+fn kprobe_produce_only_tmrstub() {
+    let t = parse(b"ub+");
+    let ty = build(b"ub+");
+    let mut bits = any_bits(2);
+    fix_tags(&t, t.root, &mut bits, 0, 1);
+    let v = produce(&t, &ty, &bits, Hist::DecPadded);
+    assert!(v.padded_len() == 2);
+    std::mem::forget(v);
+    std::mem::forget(ty);
+}
+
+#[kani::proof]
+#[kani::unwind(8)]
+#[kani::stub(simplicity::types::precomputed::nth_power_of_2, crate::vals::stub_nth_power_of_2)]
+#[kani::stub(simplicity::Tmr::sum, crate::hcons::stub_tmr_sum)]
+#[kani::stub(simplicity::Tmr::product, crate::hcons::stub_tmr_product)]
+fn kprobe_compact_len_tmrstub() {
+    let t = parse(b"ub+");
+    let ty = build(b"ub+");
+    let mut bits = any_bits(2);
+    fix_tags(&t, t.root, &mut bits, 0, 1);
+    let v = produce(&t, &ty, &bits, Hist::DecPadded);
+    let n = v.compact_len();
+    assert!(n == 2);
+    std::mem::forget(v);
+    std::mem::forget(ty);
+}
+
+#[kani::proof]
+#[kani::unwind(8)]
+#[kani::stub(simplicity::types::precomputed::nth_power_of_2, crate::vals::stub_nth_power_of_2)]
+#[kani::stub(simplicity::Tmr::sum, crate::hcons::stub_tmr_sum)]
+#[kani::stub(simplicity::Tmr::product, crate::hcons::stub_tmr_product)]
+#[kani::stub(std::vec::Vec::push, crate::hcons::stub_vec_push)]
+fn kprobe_compact_len_tmrstub_push() {
+    let t = parse(b"ub+");
+    let ty = build(b"ub+");
+    let mut bits = any_bits(2);
+    fix_tags(&t, t.root, &mut bits, 0, 1);
+    let v = produce(&t, &ty, &bits, Hist::DecPadded);
+    let n = v.compact_len();
+    assert!(n == 2);
+    std::mem::forget(v);
+    std::mem::forget(ty);
+}
